@@ -133,6 +133,8 @@ class Body:
                 elif k == "switch":
                     tg = [x[1] for x in t["ts"]] + [t["else"]]
                     cv = op_const(t["op"])
+                    if cv is None:
+                        cv = self._const_local(op_local(t["op"]))
                     if cv is not None:
                         # switch on a literal (cfg!(debug_assertions), const generics): one live edge
                         hit = [x[1] for x in t["ts"] if int(x[0]) == cv]
@@ -146,6 +148,16 @@ class Body:
                     s.append([])
             self._succ = s
         return self._succ
+
+    def _const_local(self, l):
+        """value of a local whose only definition (anywhere in the body) is a literal: the shape
+        `_8 = const false; switchInt(move _8)` that cfg!(debug_assertions) produces"""
+        if l is None:
+            return None
+        ds = self.defs().get(l, [])
+        if len(ds) == 1 and ds[0][2] == "assign" and ds[0][3]["k"] == "use":
+            return op_const(ds[0][3]["a"])
+        return None
 
     def pred(self):
         if self._pred is None:
